@@ -836,6 +836,12 @@ pub(crate) async fn commit_transaction(
 
         manifest.version = target_version;
 
+        // Restoring republishes an old manifest.  Stable row ids that were handed out
+        // after that version must never be issued again, so keep the high-water mark.
+        if matches!(transaction.operation, Operation::Restore { .. }) {
+            manifest.next_row_id = manifest.next_row_id.max(dataset.manifest.next_row_id);
+        }
+
         let previous_writer_version = &dataset.manifest.writer_version;
         // The versions of Lance prior to when we started writing the writer version
         // sometimes wrote incorrect `Fragment.physical_rows` values, so we should
